@@ -238,6 +238,10 @@ func newPreloadedColGetter(db *bbolt.DB) (colGetter, error) {
 		c := tx.Bucket([]byte("data")).Cursor()
 
 		for k, v := c.Seek(keyPrefixValue); k != nil && bytes.HasPrefix(k, keyPrefixValue); k, v = c.Next() {
+			if len(k) != 9 {
+				return fmt.Errorf("not an updog index: bitmap key has length %d, expected 9", len(k))
+			}
+
 			key := binary.BigEndian.Uint64(k[1:])
 
 			bm := roaring.New()
